@@ -325,6 +325,7 @@ def run(ctx):
     check_multi(ctx, exe, hv, viol)
     check_operators(ctx, exe, runner, hv, viol)
     check_solvers(ctx, exe, runner, hv, viol)
+    check_solvers_vars(ctx, exe, runner, hv, viol)
 
     ctx.cov['disagreements'] = st['ndis']
     ctx.cov['rule'] = ('evaluation = one (mesh, query point) row of a projection matrix / one (mesh, Matern model, vector) operator application / '
@@ -1200,6 +1201,159 @@ def check_solvers(ctx, exe, runner, hv, viol):
         ctx.count(sx_str(c), True)
         ctx.sample({'kind': 'solve', 'n': n, 'ndat': ndat, 'cholesky_residual': rc, 'cg_crit': rf * rf / nb, 'cg_iterations': ncg,
                     'cg_vs_exact': err_f, 'kriging_cg_vs_chol': max(abs(x - y) for x, y in zip(kfv, kcv))}, maxn=12)
+
+def check_solvers_vars(ctx, exe, runner, hv, viol):
+    """conditional solves with one variance per datum (setVarianceDataVector on both operators; locator V through the API) and one or two
+    structures on the same meshing: the implementation's Cholesky and conjugate-gradient solutions, quadratic term, log-determinant and
+    kriging against the system (diag(Q_k) + A' D^-1 A) z = A' D^-1 y (python) and its exact solution (model kind 14)"""
+    quick = ctx.quick(); rng = ctx.rng
+    ncase = 14 if quick else 120
+    specs = []
+    for _ in range(ncase):
+        ncov = rng.choice([1, 2, 2])
+        while True:
+            ts = gen_turbo(rng, ndim=rng.choice([1, 2, 2, 3]), maxn=5, allow_sel=False)
+            if 4 <= math.prod(ts['nx']) <= (20 if ncov == 2 else 30): break
+        if ts['ang']: hv.ask(ts['n'], ts['ang'])
+        specs.append((ts, ncov))
+    hv.run(ctx, exe)
+    cases = []
+    for ts, ncov in specs:
+        M = turbo_M(ts, hv)
+        covs = [gen_cov(rng, ts['n']) for _ in range(ncov)]
+        tot = sum(cv['sill'] for cv in covs)
+        nd = rng.randint(3, 7)
+        pts = [point_of_u(ts, M, gen_point_u(rng, ts, 'inside')) for _ in range(nd)]
+        z = [F(rng.randint(-32, 32), 8) for _ in range(nd)]
+        # measurement-error variances, all different, above the floor 0.01 x total sill applied by SPDE::_init
+        pool = [tot * F(k, 16) for k in (1, 2, 3, 5, 8, 13, 24, 40)]
+        vars_ = rng.sample(pool, nd) if nd <= len(pool) else [rng.choice(pool) for _ in range(nd)]
+        pout = [point_of_u(ts, M, gen_point_u(rng, ts, 'inside')) for _ in range(rng.randint(2, 4))]
+        cases.append([13, [0] + turbo_sx(ts, hv), [cov_sx(cv) for cv in covs], [[dy(x) for x in p] for p in pts], [dy(x) for x in z],
+                      [dy(x) for x in vars_], [[dy(x) for x in p] for p in pout]])
+        ctx.dist('solve_vars_%dd_%dcov' % (ts['n'], ncov))
+    cf = write_cases(ctx, 'solvevars', cases)
+    rc_i, impl = run_impl(ctx, exe, cf, timeout=900)
+    kmodel = {}
+    if runner is not None:
+        kc_ = []; kidx = []
+        for i, c in enumerate(cases):
+            ii = impl[i] if i < len(impl) else None
+            if ii is None or ii[0] == -997 or ii[0] * ii[2] > (26 if quick else 40): continue
+            blocks = [[ii[0], b[1], b[2], b[3]] for b in ii[3]]
+            kc_.append([14] + c[1][1:7] + [c[3], blocks, c[5], c[4]]); kidx.append(i)
+        if kc_:
+            kf_ = write_cases(ctx, 'krigvarsmodel', kc_)
+            rc_m, kres = run_model(ctx, runner, kf_, jobs=min(NPROC, len(kc_)))
+            if len(kres) != len(kc_): print('ERROR: model runner returned %d results for %d kriging cases' % (len(kres), len(kc_))); sys.exit(3)
+            for i, r in zip(kidx, kres):
+                if r and r[0] == -999: print('ERROR: model rejected a kriging case'); sys.exit(3)
+                kmodel[i] = r
+    fv = lambda l: [float(undy(x)) if undy(x) is not None else float('nan') for x in l]
+    for i, c in enumerate(cases):
+        ii = impl[i] if i < len(impl) else None
+        rep = {'case': sx_str(c), 'how': 'harness/C15.cpp kind 13'}
+        if ii is None or ii[0] == -997:
+            viol('crash:spde-solve', 'the harness produced no answer (crash) on a conditional solve with one variance per datum', rep); continue
+        n, ndat, ncov, blocks, A, Aout, qc, qf, ldc, kc, kf, q1, q0, ld1, vapi, ncg = ii
+        N = n * ncov
+        z = [float(undy(x)) for x in c[4]]; vars_ = [float(undy(x)) for x in c[5]]
+        Ad = [[0.] * n for _ in range(ndat)]
+        for r, row in enumerate(A[2]):
+            for e in row: Ad[r][e[0]] = float(undy(e[1]))
+        Qs = [[[float(undy(x)) for x in row] for row in b[0]] for b in blocks]
+        def system(vv):
+            Mm = [[0.] * N for _ in range(N)]
+            for k in range(ncov):
+                for a in range(n):
+                    for b_ in range(n): Mm[k * n + a][k * n + b_] = Qs[k][a][b_]
+            for k in range(ncov):
+                for l in range(ncov):
+                    for a in range(n):
+                        for b_ in range(n):
+                            Mm[k * n + a][l * n + b_] += sum(Ad[r][a] * Ad[r][b_] / vv[r] for r in range(ndat))
+            bb = [sum(Ad[r][a] * z[r] / vv[r] for r in range(ndat)) for k in range(ncov) for a in range(n)]
+            return Mm, bb
+        Mm, b_ref = system(vars_)
+        b = [x for blk in blocks for x in fv(blk[4])]
+        xc = [x for blk in blocks for x in fv(blk[5])]; xf = [x for blk in blocks for x in fv(blk[6])]
+        nb = math.sqrt(sum(x * x for x in b_ref)) or 1.
+        ctx.count(sx_str(c), True)
+        if max(abs(x - y) for x, y in zip(b, b_ref)) > 1e-10 * (1 + nb): viol('spde-solve:rhs', 'computeRhs differs from A\'D^-1 z (one variance per datum)', rep)
+        def resid(x): return math.sqrt(sum((sum(Mm[a][k] * x[k] for k in range(N)) - b_ref[a]) ** 2 for a in range(N)))
+        mn = max(sum(abs(x) for x in r) for r in Mm)
+        rc_, rf_ = resid(xc), resid(xf)
+        if not rc_ <= 1e-9 * (mn * max(abs(x) for x in xc) + nb):
+            viol('spde-solve:cholesky-residual', 'one variance per datum, %d structure(s): the Cholesky solution leaves a residual %.3g in (Q + A\'D^-1 A) x = b (|b| = %.3g)' % (ncov, rc_, nb), rep)
+        nbm = sum(math.sqrt(sum(x * x for x in fv(blk[4]))) for blk in blocks) or 1.     # the stopping rule uses the sum of the norms of the blocks
+        if not rf_ * rf_ <= 10 * 1e-8 * nbm:
+            viol('spde-solve:cg-residual', 'one variance per datum: the conjugate-gradient solution leaves |r|^2/|b| = %.3g > 1e-8 (iterations %d)' % (rf_ * rf_ / nbm, ncg), rep)
+        xs = solve_float(Mm, b_ref)
+        inv = [solve_float(Mm, [1. if a == k else 0. for a in range(N)]) for k in range(N)]
+        ninv = max(sum(abs(inv[k][a]) for k in range(N)) for a in range(N)); cond = mn * ninv
+        xsn = 1 + max(abs(x) for x in xs)
+        if i in kmodel and kmodel[i][0][0] == 1:
+            zm = [float(unq(x)) for x in kmodel[i][0][1]]
+            ec = max(abs(x - y) for x, y in zip(xc, zm)); ef = max(abs(x - y) for x, y in zip(xf, zm))
+            if ec > 1e-12 * cond * xsn + 1e-13 * xsn:
+                viol('spde-solve:cholesky-vs-exact-solution', 'one variance per datum, %d structure(s): the Cholesky solution differs from the exact solution of '
+                     '(Q + A\'D^-1 A) z = A\'D^-1 y by %.3g (condition number %.3g)' % (ncov, ec, cond), rep)
+            if ef > 10 * ninv * rf_ + 1e-12 * cond * xsn:
+                viol('spde-solve:cg-vs-exact-solution', 'one variance per datum: the conjugate-gradient solution differs from the exact solution by %.3g' % ef, rep)
+            ctx.sample({'kind': 'kriging-exact-vars', 'ncov': ncov, 'n': n, 'cond': cond, 'cholesky_vs_exact': ec, 'cg_vs_exact': ef}, maxn=20)
+        elif i in kmodel:
+            viol('model-drift:kriging-system-singular', 'the model finds the kriging system singular', rep, found=False)
+        q_ref = sum(z[r] * z[r] / vars_[r] for r in range(ndat)) - sum(b_ref[a] * xs[a] for a in range(N))
+        if abs(float(undy(qc)) - q_ref) > 1e-8 * cond * (1 + abs(q_ref)) * 1e-3 + 1e-8 * (1 + abs(q_ref)):
+            viol('spde-solve:quadratic-cholesky', 'one variance per datum: computeQuadratic (Cholesky) %.12g, from the system %.12g' % (float(undy(qc)), q_ref), rep)
+        if abs(float(undy(qf)) - q_ref) > 1e-3 * (1 + abs(q_ref)) + 10 * ninv * rf_ * nb:
+            viol('spde-solve:quadratic-cg', 'one variance per datum: computeQuadratic (CG) %.12g, from the system %.12g' % (float(undy(qf)), q_ref), rep)
+        pv = ldl_pivots(Mm, exact=False)
+        if len(pv) == N and pv[-1] > 0:
+            ld_ref = sum(math.log(p_) for p_ in pv)
+            if abs(float(undy(ldc)) - ld_ref) > 1e-8 * (1 + abs(ld_ref)):
+                viol('spde-solve:logdet-cholesky', 'one variance per datum: computeLogDetOp %.12g, from the matrix %.12g' % (float(undy(ldc)), ld_ref), rep)
+        # ---- through the API: variances from the locator V, floored at 0.01 x total sill
+        tot = sum(float(undy(cv[1])) for cv in c[2])
+        va = fv(vapi); va_ref = [max(v_, 0.01 * tot) for v_ in vars_]
+        if len(va) != ndat or max(abs(x - y) for x, y in zip(va, va_ref)) > 1e-12 * (1 + max(va_ref)):
+            viol('spde-api:data-variances', 'SPDE uses the data variances %s for the locator V values %s' % (va, vars_), rep); continue
+        Ma, ba = system(va_ref)
+        xa = solve_float(Ma, ba)
+        nout = Aout[0]; Ao = [[0.] * n for _ in range(nout)]
+        for r, row in enumerate(Aout[2]):
+            for e_ in row: Ao[r][e_[0]] = float(undy(e_[1]))
+        k_ref = [sum(Ao[r][a] * xa[k * n + a] for k in range(ncov) for a in range(n)) for r in range(nout)]
+        ks = 1 + max(abs(x) for x in k_ref)
+        kcv, kfv = fv(kc), fv(kf)
+        if max(abs(x - y) for x, y in zip(kcv, k_ref)) > 1e-8 * ks:
+            viol('spde-kriging:cholesky', 'locator V, %d structure(s): krigingSPDE (Cholesky) differs from A_out (Q + A\'D^-1 A)^-1 A\'D^-1 z by %.3g' %
+                 (ncov, max(abs(x - y) for x, y in zip(kcv, k_ref))), rep)
+        inva = [solve_float(Ma, [1. if a == k else 0. for a in range(N)]) for k in range(N)]
+        ninva = max(sum(abs(inva[k][a]) for k in range(N)) for a in range(N))
+        amax = max([sum(abs(x) for x in r) for r in Ao] + [1.]) * ncov
+        nba = sum(math.sqrt(sum(x * x for x in ba[k * n:(k + 1) * n])) for k in range(ncov)) or 1.
+        if max(abs(x - y) for x, y in zip(kfv, k_ref)) > 3 * amax * ninva * 1e-4 * math.sqrt(nba) + 1e-8 * ks:
+            viol('spde-kriging:cg', 'locator V: krigingSPDE (conjugate gradient) differs from the solution of the system by %.3g' % max(abs(x - y) for x, y in zip(kfv, k_ref)), rep)
+        qa_ref = sum(z[r] * z[r] / va_ref[r] for r in range(ndat)) - sum(ba[a] * xa[a] for a in range(N))
+        q1v, q0v = float(undy(q1)), float(undy(q0))
+        if abs(q1v - qa_ref) > 1e-8 * (1 + abs(qa_ref)) * max(1., 1e-3 * mn * ninva):
+            viol('spde-likelihood:quadratic-term', 'locator V: quadratic term of the likelihood (Cholesky) %.12g, from the system %.12g' % (q1v, qa_ref), rep)
+        if abs(q0v - qa_ref) > 1e-3 * (1 + abs(qa_ref)) + 3 * ninva * 1e-4 * math.sqrt(nba) * nba:
+            viol('spde-likelihood:quadratic-term-cg', 'locator V: quadratic term of the likelihood (CG) %.12g, from the system %.12g' % (q0v, qa_ref), rep)
+        pva = ldl_pivots(Ma, exact=False)
+        if len(pva) == N and pva[-1] > 0 and abs(float(undy(ld1)) - sum(math.log(p_) for p_ in pva) - 0.) > 1e-6 * (1 + abs(float(undy(ld1)))):
+            # computeLogDet = log|Q + A'D^-1A| - log|Q| + sum log(var): compared below with its three terms
+            lq = 0.
+            ok_ = True
+            for k in range(ncov):
+                pq = ldl_pivots(Qs[k], exact=False)
+                if len(pq) != n or pq[-1] <= 0: ok_ = False; break
+                lq += sum(math.log(p_) for p_ in pq)
+            if ok_:
+                ref_ = sum(math.log(p_) for p_ in pva) - lq + sum(math.log(v_) for v_ in va_ref)
+                if abs(float(undy(ld1)) - ref_) > 1e-7 * (1 + abs(ref_)):
+                    viol('spde-likelihood:log-determinant', 'locator V: computeLogDet (Cholesky) %.12g, from the matrices %.12g' % (float(undy(ld1)), ref_), rep)
 
 def load_corpus(ctx):
     p = os.path.join(VERIF, 'corpus', ctx.pid + '.sx')
